@@ -20,7 +20,7 @@ RULE = ("One contig (250-600 bp, random bases, optionally with planted short tan
 ASSUMPTIONS = [
     "reads are exact copies of a haplotype with indels placed at the variant's normalised position (suffix-then-prefix trimming)",
     "fully covers = one N-free aligned block contains the VCF REF span plus one flanking base on each side; does not overlap = no aligned or deleted base inside the REF span; everything else is partial and not judged",
-    "for mate pairs only the never-wrong and the no-overlap claims are judged (the reader legitimately drops a mate of opposite orientation)",
+    "a mate pair is one read: a variant fully covered by either mate (and not partially by the other) is judged like a variant of a single read, whatever the orientation of the mates",
     "without reference, the always-found claim is judged for SNVs and for pure insertions/deletions that cannot be shifted in their sequence context",
 ]
 
@@ -202,7 +202,7 @@ class AllelePart:
                             sig += ":read-with-N"
                         ctx.violation(sig, "read %s (%s at %d, haplotype %d) fully covers %s %r carrying allele %d but %d was recorded" % (
                             name, rs[0]["cigar"], rs[0]["pos"], rs[0]["hap"], typ, v, truth, rec))
-                    elif rec is None and not paired:
+                    elif rec is None:
                         must = typ in ("snv", "ins", "del", "mnp") if case["use_reference"] else (
                             typ == "snv" or (typ in ("ins", "del") and not shiftable(seq, v)))
                         if must:
